@@ -82,7 +82,7 @@ COMMON = ["--srcip", "10.9.0.77", "--gwmac", "02:5a:00:00:00:fe", "-a", "{dir}/e
 
 def packet_expect(scan, tgt, chunk_ranges, chunk_probes, delay_ms, has_net=True, rate=None, srcip=None, srcmac=None, dstmac=None):
     return {"kind": "packet", "scan": scan, "target": tgt, "hasNet": has_net, "chunkRanges": chunk_ranges, "chunkProbes": chunk_probes, "delayUs": delay_ms * 1000,
-            "rate": rate or NORATE, "srcip": srcip or SRC, "srcmac": srcmac or MY, "dstmac": dstmac or GW, "dstmacs": [], "vpn": False}
+            "rate": rate or NORATE, "srcip": srcip or SRC, "srcmac": srcmac or MY, "dstmac": dstmac or GW, "dstmacs": [], "vpn": False, "nerr": -1}
 
 
 def scenarios(tier):
@@ -116,6 +116,9 @@ def scenarios(tier):
                           {"bytes": tcp_reply(a(1), 1200, 0x12), "afterProbe": 200, "delayMs": 300},   # a port of the second chunk while the first is listening
                           {"bytes": tcp_reply(a(1), 1200, 0x12), "afterProbe": 201, "delayMs": 100}],
                "expect": packet_expect("tcpsyn", target(a(1), 32, chunk1 + chunk2), [chunk1, chunk2], [200, 1], 600)})
+    # 4'. more than 200 port ranges with a rate limit: every pass is paced
+    sc.append({"name": "tcp-chunked-rate", "args": ["tcp", "syn", "--json", "--rate", "500/s", "-p", ",".join(str(p) for p in ports)] + COMMON + ["--exit-delay", "300ms", "10.9.3.1"], "files": {"empty": ""},
+               "expect": packet_expect("tcpsyn", target(a(1), 32, chunk1 + chunk2), [chunk1, chunk2], [200, 1], 300, rate={"n": 500, "winMs": 1000, "winNs": 0})})
     # 5. arp with a rate limit: coverage, spacing, reply -> record
     sc.append({"name": "arp-rate", "args": ["arp", "--json", "--rate", "200/s", "--exit-delay", "500ms", "10.9.3.0/27"],
                "inject": [{"bytes": arp_reply(a(5), [2, 0x5a, 9, 9, 9, 5]), "afterProbe": 3, "delayMs": 10}, {"bytes": arp_reply([10, 9, 4, 5], [2, 0x5a, 9, 9, 9, 6]), "afterProbe": 3, "delayMs": 20}],
@@ -164,6 +167,11 @@ def scenarios(tier):
                "inject": [{"bytes": arp_reply(a(1), m1), "afterProbe": 1, "delayMs": 10}, {"bytes": arp_reply(a(1), m1), "afterProbe": 5, "delayMs": 10},
                           {"bytes": arp_reply(a(2), m2), "afterProbe": 6, "delayMs": 10}, {"bytes": arp_reply(a(1), m1), "afterProbe": 9, "delayMs": 10}],
                "expect": {"kind": "live", "scan": "arp", "target": target(net30, 30), "naddr": 4, "intervalUs": 400000, "minPasses": 3}})
+    # 9d'. live mode together with --exclude: still repeated passes, over the addresses that are not excluded
+    sc.append({"name": "arp-live-exclude", "args": ["arp", "--json", "--live", "400ms", "--exclude", "{dir}/lexcl", "10.9.3.0/29"], "files": {"lexcl": "10.9.3.4/30\n"},
+               "sigintAfter": 13, "maxMs": 12000,
+               "inject": [{"bytes": arp_reply(a(1), m1), "afterProbe": 1, "delayMs": 10}, {"bytes": arp_reply(a(1), m1), "afterProbe": 6, "delayMs": 10}],
+               "expect": {"kind": "live", "scan": "arp", "target": target(net30, 29, exclude=[{"ip": [10, 9, 3, 4], "len": 30}]), "naddr": 4, "intervalUs": 400000, "minPasses": 3}})
     # 9e. raw-IP ("VPN") mode: a tun device has no hardware address; probes are datagrams without Ethernet header, replies likewise
     t = lambda d: [10, 8, 3, d]
     vsrc = [10, 8, 0, 77]
@@ -199,7 +207,7 @@ def scenarios(tier):
                "files": {"cache2": cache}, "routes": [["default", "via", "10.8.0.254", "dev", "vft0", "metric", "100"], ["default", "via", "10.9.0.254", "dev", "vfw0", "metric", "200"]],
                "expect": dict(packet_expect("tcpsyn", target(net30, 30, [rng(80, 80)]), [[rng(80, 80)]], [4], 400, dstmac=gwb), dstmacs=[{"ip": a(1), "mac": m1}])})
     # 9j. application scans over HTTP: every connection goes to a target, whatever the environment or the server says
-    hexp = lambda tgt, maxc, nrec: {"kind": "apphttp", "scan": "elastic", "target": tgt, "maxConns": maxc, "nrecords": nrec}
+    hexp = lambda tgt, maxc, nrec: {"kind": "apphttp", "scan": "elastic", "target": tgt, "maxConns": maxc, "nrecords": nrec, "hosts": False}
     proxy = ["HTTP_PROXY=http://10.200.0.99:3128", "http_proxy=http://10.200.0.99:3128", "HTTPS_PROXY=http://10.200.0.99:3128", "https_proxy=http://10.200.0.99:3128", "NO_PROXY=", "no_proxy="]
     sc.append({"name": "elastic-proxy-env", "args": ["elastic", "--json", "-p", "9200", "10.200.0.4/31"], "servers": {"9200": "json", "3128": "json"}, "env": proxy,
                "expect": hexp(target([10, 200, 0, 4], 31, [rng(9200, 9200)]), 2, 2)})
@@ -213,6 +221,22 @@ def scenarios(tier):
     for cmd, port in ((["elastic"], "9200"), (["docker", "--proto", "http"], "2375"), (["socks"], "1080")):
         sc.append({"name": "sigint-inflight-" + cmd[0], "args": cmd + ["--json", "-p", port, "-t", "9s", "10.200.0.8/30"], "servers": {port: "stall"}, "sigintConnMs": 300, "maxMs": 14000,
                    "expect": {"kind": "sigint", "scan": cmd[0], "target": target([10, 200, 0, 8], 30, [rng(int(port), int(port))])}})
+    # 9l. time bound of application probes through the command's own option wiring: every server accepts and stalls, -t 300ms, 4 targets in
+    # parallel: connect + at most three data timeouts + exit delay, far below the 2 s default
+    sc.append({"name": "socks-timeout-flag", "args": ["socks", "--json", "-p", "1080", "-t", "300ms", "--exit-delay", "100ms", "10.200.0.8/30"], "servers": {"1080": "stall"}, "maxMs": 14000,
+               "expect": {"kind": "apptime", "scan": "socks", "target": target([10, 200, 0, 8], 30, [rng(1080, 1080)]), "boundUs": 1700000, "nrecords": 0}})
+    sc.append({"name": "elastic-timeout-flag", "args": ["elastic", "--json", "-p", "9200", "-t", "300ms", "--exit-delay", "100ms", "10.200.0.8/30"], "servers": {"9200": "stall"}, "maxMs": 14000,
+               "expect": {"kind": "apptime", "scan": "elastic", "target": target([10, 200, 0, 8], 30, [rng(9200, 9200)]), "boundUs": 1700000, "nrecords": 0}})
+    sc.append({"name": "docker-timeout-flag", "args": ["docker", "--json", "--proto", "http", "-p", "2375", "-t", "300ms", "--exit-delay", "100ms", "10.200.0.8/30"], "servers": {"2375": "stall"}, "maxMs": 14000,
+               "expect": {"kind": "apptime", "scan": "docker", "target": target([10, 200, 0, 8], 30, [rng(2375, 2375)]), "boundUs": 1700000, "nrecords": 0}})
+    # 9m. many docker / elastic probes in parallel against distinct servers: every target is contacted, every record names its own target
+    sc.append({"name": "docker-parallel", "args": ["docker", "--json", "--proto", "http", "-p", "2375", "-w", "16", "10.200.0.64/26"], "servers": {"2375": "json"},
+               "expect": dict(hexp(target([10, 200, 0, 64], 26, [rng(2375, 2375)]), 3, 64), scan="docker", hosts=True)})
+    sc.append({"name": "elastic-parallel", "args": ["elastic", "--json", "-p", "9200", "-w", "16", "10.200.0.64/26"], "servers": {"9200": "json"},
+               "expect": dict(hexp(target([10, 200, 0, 64], 26, [rng(9200, 9200)]), 2, 64), hosts=True)})
+    # 9n. a quiet wire for longer than any poll timeout: no frame matches the filter during a long exit delay; nothing is reported as an error
+    sc.append({"name": "quiet-wire", "args": ["icmp", "--json"] + COMMON + ["--exit-delay", "2600ms", "10.9.3.0/31"], "files": {"empty": ""},
+               "expect": dict(packet_expect("icmp", target(net30, 31), [[]], [2], 2600), nerr=0)})
     # 10. targets that are not IPv4 are refused before anything is sent
     for i, t in enumerate(["::1", "::ffff:10.9.3.1/126", "fe80::1/64", "10.9.3.1/33", "10.9.3"]):
         sc.append({"name": "refuse-%d" % i, "args": ["tcp", "syn", "--json", "-p", "80"] + COMMON + ["--exit-delay", "300ms", t], "files": {"empty": ""}, "maxMs": 6000,
@@ -281,6 +305,12 @@ def decode_record(scan, line):
     except Exception:
         rec["ip"] = [-1, -1, -1, -1]
     rec["port"] = d.get("port", 0)
+    if isinstance(d.get("host"), str):          # elastic / docker records name their target as [tcp://]a.b.c.d:port
+        try:
+            h, prt = d["host"].replace("tcp://", "").rsplit(":", 1)
+            rec["ip"], rec["port"] = [int(x) for x in h.split(".")], int(prt)
+        except Exception:
+            rec["ip"] = [-1, -1, -1, -1]
     rec["flags"] = list(d.get("flags", ""))
     if "mac" in d:
         try:
